@@ -225,6 +225,18 @@ func (r *coreRun) reset() {
 	sink.reset()
 }
 
+// coreNamedWriter is the value an application passes to name a destination in a remove call: the writer
+// itself, and os.Stdout / os.Stderr for the default destinations (ids -1 / -2)
+func coreNamedWriter(id int) io.Writer {
+	switch id {
+	case STDOUT:
+		return os.Stdout
+	case STDERR:
+		return os.Stderr
+	}
+	return getWriter(id)
+}
+
 func (r *coreRun) idOf(e *slog.Entry) int {
 	if e == nil {
 		return 0
@@ -374,13 +386,13 @@ func (r *coreRun) set(l *slog.Entry, k string, a, b int) *slog.Entry {
 	case "AddWriter":
 		return l.AddWriter(getWriter(a))
 	case "RemoveWriter":
-		return l.RemoveWriter(getWriter(a))
+		return l.RemoveWriter(coreNamedWriter(a))
 	case "ErrorWriter":
 		return l.SetErrorWriter(getWriter(a))
 	case "AddErrorWriter":
 		return l.AddErrorWriter(getWriter(a))
 	case "RemoveErrorWriter":
-		return l.RemoveErrorWriter(getWriter(a))
+		return l.RemoveErrorWriter(coreNamedWriter(a))
 	case "AddLevelWriter":
 		return l.AddLevelWriter(slog.Level(b), getWriter(a))
 	case "RemoveLevelWriter":
